@@ -262,10 +262,139 @@ def run_server(out, tier, seed):
     return {"server_traces": n, "garbage_frames": frames, "server_failures": bad}
 
 
+
+FIXED = {3: 1, 4: 1, 5: 2, 6: 4, 7: 8, 8: 16, 9: 1, 10: 2, 11: 4, 12: 8, 13: 16, 14: 4, 15: 8}
+
+
+def gen_headers(rng, force=None):
+    """header maps over all 15 value kinds; raw / string values and keys at the boundary lengths 1 and 255"""
+    hs = {}
+    for j in range(rng.randrange(1, 5)):
+        kind = force if (force and j == 0) else rng.randrange(1, 16)
+        if kind in (1, 2):
+            n = rng.choice([1, 2, 17, 254, 255, 255])
+            val = bytes(rng.choice(b"abcxyz019") for _ in range(n)) if kind == 2 else bytes(rng.randrange(256) for _ in range(n))
+        elif kind == 3:
+            val = bytes([rng.randrange(2)])
+        elif kind in (14, 15):
+            val = struct.pack("<f" if kind == 14 else "<d", rng.choice([0.0, 1.5, -2.25, 1e10]))
+        else:
+            val = bytes(rng.choice([0, 1, 127, 128, 255]) for _ in range(FIXED[kind]))
+        klen = rng.choice([1, 3, 8, 255])
+        key = "".join(rng.choice("hkqz05_-") for _ in range(klen))
+        hs[key] = [key, kind, val.hex()]
+    return sorted(hs.values())
+
+
+def gen_response_trace(rng, tid):
+    """a catalogue with several partitions, a group with two members, users, stored offsets and messages carrying every header kind,
+    written over both transports; then every read request over the binary protocol and over HTTP/JSON: equal answers, equal to what was stored"""
+    nparts = rng.choice([2, 3, 4])
+    ops = [{"op": "create_stream", "name": "rs", "id": 1}, {"op": "create_topic", "stream": 1, "name": "rt", "parts": nparts, "id": 1},
+           {"op": "create_topic", "stream": 1, "name": "other", "parts": 1, "id": 2},
+           {"op": "create_group", "stream": 1, "topic": 1, "name": "rg", "id": 1}, {"op": "create_group", "stream": 1, "topic": 1, "name": "idle", "id": 2}]
+    members = ["m%d" % i for i in range(1, rng.choice([2, 3]) + 1)]
+    for m in members:
+        ops += [{"op": "login", "c": m, "user": "iggy", "password": "iggy"}, {"op": "join_group", "stream": 1, "topic": 1, "group": 1, "c": m}]
+    ops += [{"op": "create_user", "user": "resp-user", "password": "resp-password", "perms": {"g": rng.randrange(1, 1024), "streams": [[1, rng.randrange(64), [[1, rng.randrange(16)]]]]}},
+            {"op": "create_user", "user": "resp-off", "password": "resp-password", "inactive": True}]
+    sent = {p: [] for p in range(1, nparts + 1)}
+    mid = 0
+    kinds = list(range(1, 16))
+    rng.shuffle(kinds)
+    for b in range(rng.randrange(4, 8)):
+        part = rng.randrange(1, nparts + 1)
+        msgs = []
+        for _ in range(rng.randrange(1, 4)):
+            mid += 1
+            m = {"id": mid, "len": rng.choice([1, 2, 10, 300])}
+            if rng.random() < 0.85:
+                m["headers"] = gen_headers(rng, kinds.pop() if kinds else None)
+            msgs.append(m)
+            sent[part].append(m)
+        op = {"op": "send", "stream": 1, "topic": 1, "part": {"kind": "pid", "id": part}, "msgs": msgs}
+        if rng.random() < 0.5:
+            op["c"] = "httproot"
+        ops.append(op)
+        if rng.random() < 0.3:
+            ops.append({"op": "flush", "stream": 1, "topic": 1, "partition": part})
+    for p in range(1, nparts + 1):
+        if sent[p] and rng.random() < 0.7:
+            ops.append({"op": "store_offset", "stream": 1, "topic": 1, "partition": p, "offset": rng.randrange(len(sent[p])), "consumer": {"kind": "consumer", "id": 5}})
+    reads = [{"op": "get_streams"}, {"op": "get_stream", "stream": 1}, {"op": "get_stream", "stream": "rs"}, {"op": "get_topics", "stream": 1},
+             {"op": "get_topic", "stream": 1, "topic": 1}, {"op": "get_topic", "stream": "rs", "topic": "other"},
+             {"op": "get_groups", "stream": 1, "topic": 1}, {"op": "get_group", "stream": 1, "topic": 1, "group": 1}, {"op": "get_group", "stream": 1, "topic": 1, "group": "idle"},
+             {"op": "get_users"}, {"op": "get_user", "uid": "resp-user"}, {"op": "get_user", "uid": "resp-off"}, {"op": "get_user", "uid": 1}]
+    polls = {}
+    for p in range(1, nparts + 1):
+        reads.append({"op": "get_offset", "stream": 1, "topic": 1, "partition": p, "consumer": {"kind": "consumer", "id": 5}})
+        reads.append({"op": "poll", "stream": 1, "topic": 1, "partition": p, "kind": "offset", "value": 0, "count": 100, "full": True, "consumer": {"kind": "consumer", "id": 9}})
+        polls[len(reads) - 1] = p
+    pairs = []
+    base = len(ops)
+    for i, r in enumerate(reads):
+        ops.append(dict(r))
+        ops.append(dict(r, c="httproot"))
+        pairs.append((base + 2 * i, base + 2 * i + 1, polls.get(i)))
+    grp = base + 2 * 7
+    return {"id": tid, "cfg": {"req": rng.choice([1, 1000]), "seg_size": 1000000, "cache": rng.random() < 0.5}, "ops": ops,
+            "marks": {"pairs": pairs, "sent": sent, "group_at": grp, "members": len(members), "nparts": nparts}}
+
+
+def run_responses(out, tier, seed):
+    rng = util.Rng(seed * 7919 + 1313)
+    n = 8 if tier == "quick" else 80
+    traces = [gen_response_trace(rng, "C13-r%d" % i) for i in range(n)]
+    impl = harness.run_traces("srv", [{k: v for k, v in t.items() if k != "marks"} for t in traces], shards=min(8, n))
+    bad, compared, hdr_kinds, msgs_checked = 0, 0, set(), 0
+    for t in traces:
+        ob = impl[t["id"]]
+        slim = {k: v for k, v in t.items() if k != "marks"}
+        if "crash" in ob or "init_err" in ob:
+            out.violation("resp-crash-%s" % t["id"], {"kind": "impl-crash", "mode": "srv", "trace": slim, "detail": str(ob)[-1500:]})
+            bad += 1
+            continue
+        outs = ob["outs"]
+        mk = t["marks"]
+        problem = None
+        for i, o in enumerate(outs[:mk["pairs"][0][0]]):
+            if o.get("r") != "ok":
+                problem = (i, "a well-formed request (headers of every kind, boundary lengths) is not served", o, None)
+                break
+        for a, b, part in ([] if problem else mk["pairs"]):
+            compared += 1
+            oa, ob_ = outs[a], outs[b]
+            if oa.get("r") != "ok" or ob_.get("r") != "ok" or oa != ob_:
+                problem = (b, "the same read request is answered differently over the binary protocol and over HTTP/JSON", oa, ob_)
+                break
+            if part is not None:
+                want = [{"id": str(m["id"]), "hdrs": [list(h) for h in m.get("headers", [])]} for m in mk["sent"][part]]
+                got = [{"id": f["id"], "hdrs": [list(h) for h in f["hdrs"]]} for f in oa.get("full", [])]
+                msgs_checked += len(got)
+                for m in mk["sent"][part]:
+                    hdr_kinds.update(h[1] for h in m.get("headers", []))
+                if got != want or not all(x["pok"] and x["cok"] for x in oa["msgs"]):
+                    problem = (a, "polled messages differ from the messages sent (ids, payloads, header keys / kinds / values)", got, want)
+                    break
+            if a == mk["group_at"]:
+                owned = sorted(p for m in oa.get("members", []) for p in m["parts"])
+                if oa.get("members_count") != mk["members"] or len(oa.get("members", [])) != mk["members"] or owned != list(range(1, mk["nparts"] + 1)) or oa.get("parts") != mk["nparts"]:
+                    problem = (a, "the consumer group details returned to the client differ from the group's members and their partitions", oa, None)
+                    break
+        if problem:
+            bad += 1
+            if bad <= 3:
+                i, what, x, y = problem
+                out.violation("resp-%s-%d" % (t["id"], i), {"kind": "spec-monitor", "mode": "srv", "trace": {"id": t["id"], "cfg": t["cfg"], "ops": t["ops"][:i + 1]},
+                                                            "what": what, "first": x, "second": y})
+    return {"response_traces": n, "response_pairs_compared": compared, "response_failures": bad, "header_kinds_seen": sorted(hdr_kinds), "messages_with_headers_checked": msgs_checked}
+
+
 def run(out, tier, seed, gate):
     t0 = time.time()
     cov = run_wire(out, tier, seed)
     cov.update(run_server(out, tier, seed))
+    cov.update(run_responses(out, tier, seed))
     cov.update({"evaluations": cov["requests"] + cov["malformed_frames"], "distinct_nontrivial": cov["requests"],
                 "traces_validated_against_impl": cov["requests"] + cov["malformed_frames"],
                 "rule": "structure-aware generation over 23 request kinds (all identifier kinds, boundary lengths 1 and 255, optional fields absent/present, extreme numbers; the first 60 use one-character names everywhere); each request is mutated into truncated / extended / byte-flipped frames",
